@@ -442,29 +442,49 @@ func msgsIn(d dyn, out *[]*mMsg) {
 	}
 }
 
-// wouldCycle: storing d somewhere inside target (a handle's node) would make the graph cyclic.
-func wouldCycle(target *handle, d dyn) bool {
+// wouldCycle: storing d into one of the written nodes would make the graph cyclic.
+func wouldCycle(written []any, d dyn) bool {
 	var ms []*mMsg
 	msgsIn(d, &ms)
 	for _, m := range ms {
 		v := newVisitor()
 		v.msg(m)
-		switch target.kind {
-		case 'm':
-			if v.msgs[target.msg] {
-				return true
-			}
-		case 'l':
-			if v.lists[target.list] {
-				return true
-			}
-		case 'p':
-			if v.maps[target.mp] {
-				return true
+		for _, t := range written {
+			switch t := t.(type) {
+			case *mMsg:
+				if v.msgs[t] {
+					return true
+				}
+			case *mList:
+				if v.lists[t] {
+					return true
+				}
+			case *mMap:
+				if v.maps[t] {
+					return true
+				}
 			}
 		}
 	}
 	return false
+}
+
+// writtenNodes: the nodes an operation through handle h writes to: the handle's own node, and
+// for an assignment to a repeated field the field's existing list (it is refilled in place).
+func writtenNodes(h *handle, fd protoreflect.FieldDescriptor, whole bool) []any {
+	switch h.kind {
+	case 'm':
+		out := []any{h.msg}
+		if fd != nil && fd.IsList() && whole && !fd.IsExtension() {
+			if s := h.msg.known[fd.Number()]; s != nil && s.list != nil {
+				out = append(out, s.list)
+			}
+		}
+		return out
+	case 'l':
+		return []any{h.list}
+	}
+	return []any{h.mp}
 }
 
 // treeSize is the size of the expanded (unshared) content tree, capped.
@@ -522,7 +542,7 @@ func treeSize(h *handle) int {
 }
 
 // problems of a content tree that legitimately make marshalling fail.
-func marshalObstacles(m *mMsg) (missingRequired, badUTF8 bool) {
+func marshalObstacles(m *mMsg) (missingRequired, badUTF8, hasExt bool) {
 	seen := map[*mMsg]bool{}
 	var walk func(*mMsg)
 	we := func(fd protoreflect.FieldDescriptor, e mElem) {
@@ -545,6 +565,9 @@ func marshalObstacles(m *mMsg) (missingRequired, badUTF8 bool) {
 					missingRequired = true
 				}
 				continue
+			}
+			if fd.IsExtension() {
+				hasExt = true
 			}
 			switch {
 			case fd.IsList():
@@ -838,17 +861,17 @@ func (c *mctx) shallowCopy(md protoreflect.MessageDescriptor, src *mMsg) (*mMsg,
 
 // normalizedCopy is what unmarshal(marshal(m)) must produce: the same content, nothing shared,
 // unpopulated fields absent.
-func (w *world) normalizedCopy(m *mMsg) *mMsg {
+func (w *world) normalizedCopy(m *mMsg, stripExt bool) *mMsg {
 	n := w.newMsg(m.md)
 	ce := func(e mElem) mElem {
 		if e.msg != nil {
-			return mElem{msg: w.normalizedCopy(e.msg)}
+			return mElem{msg: w.normalizedCopy(e.msg, stripExt)}
 		}
 		return e
 	}
 	for _, fd := range fieldsOf(m.md) {
 		s := m.known[fd.Number()]
-		if !isSet(fd, s) {
+		if !isSet(fd, s) || (stripExt && fd.IsExtension()) {
 			continue
 		}
 		switch {
@@ -865,7 +888,7 @@ func (w *world) normalizedCopy(m *mMsg) *mMsg {
 			}
 			n.known[fd.Number()] = &mSlot{mp: mp}
 		case s.msg != nil:
-			n.known[fd.Number()] = &mSlot{msg: w.normalizedCopy(s.msg)}
+			n.known[fd.Number()] = &mSlot{msg: w.normalizedCopy(s.msg, stripExt)}
 		default:
 			n.known[fd.Number()] = &mSlot{sc: s.sc}
 		}
